@@ -127,7 +127,7 @@ func RunSync(no int, seed int64, root string, tw *trace.Writer, o SyncOpts) erro
 		os.Unsetenv("VERIF_SHARD_SUBDIR")
 	}
 	r := rand.New(rand.NewSource(seed))
-	total := o.OldN + 2
+	total := o.OldN + 3
 	ports := FreePorts(total + 1)
 	s := &syncRun{tw: tw, r: r, dir: dir}
 	for i := 0; i < total; i++ {
@@ -145,6 +145,8 @@ func RunSync(no int, seed int64, root string, tw *trace.Writer, o SyncOpts) erro
 		} else {
 			neu = s.names[:o.OldN-1]
 		}
+	case "scatter": // every old server leaves, three new ones take over: records go to several destinations at once
+		neu = s.names[o.OldN : o.OldN+3]
 	default: // replace one server by a new one
 		neu = append(append([]string{}, s.names[1:o.OldN]...), s.names[o.OldN])
 	}
@@ -306,6 +308,15 @@ func RunSync(no int, seed int64, root string, tw *trace.Writer, o SyncOpts) erro
 				continue // not running during the first round
 			}
 			env = []string{"VERIF_SYNC_FAULT=" + o.Fault}
+			if strings.HasPrefix(o.Fault, "records") {
+				// the sender towards ONE destination of records is slow: the others finish (and clean up) meanwhile
+				dest := rinfo[r.Intn(len(rinfo))]["owner"].(int)
+				for i, name := range neu {
+					if idxOf(s.names, name) == dest {
+						env = []string{fmt.Sprintf("VERIF_SYNC_FAULT=records:%d:sleep", i)}
+					}
+				}
+			}
 		}
 		if err := start(n, env); err != nil {
 			return err
